@@ -226,6 +226,21 @@ fn generate_service_file(service: &mut SystemdUnitFile) -> io::Result<()> {
     Ok(())
 }
 
+/// `true` if the relative `path` never leaves the directory it is resolved against,
+/// i.e. it is not absolute and no prefix of it climbs above its base with `..`.
+fn stays_below_base(path: &Path) -> bool {
+    let mut depth: usize = 0;
+    for component in path.components() {
+        match component {
+            std::path::Component::Normal(_) => depth += 1,
+            std::path::Component::CurDir => {}
+            std::path::Component::ParentDir if depth > 0 => depth -= 1,
+            _ => return false,
+        }
+    }
+    true
+}
+
 // This parses the `Install` section of the unit file and creates the required
 // symlinks to get systemd to start the newly generated file as needed.
 // In a traditional setup this is done by "systemctl enable", but that doesn't
@@ -236,7 +251,16 @@ fn enable_service_file(output_path: &Path, service: &SystemdUnitFile) {
     let mut alias: Vec<PathBuf> = service
         .lookup_all_strv(INSTALL_SECTION, "Alias")
         .iter()
-        .map(|s| PathBuf::from(s).cleaned())
+        .map(PathBuf::from)
+        // links are only ever created inside the output directory
+        .filter(|p| {
+            let inside = stays_below_base(p);
+            if !inside {
+                warn!("Ignoring Alias {p:?}: not a path inside the generator's output directory");
+            }
+            inside
+        })
+        .map(|p| p.cleaned())
         .collect();
     symlinks.append(&mut alias);
 
@@ -248,7 +272,11 @@ fn enable_service_file(output_path: &Path, service: &SystemdUnitFile) {
     // it is still useful when instantiating the unit via a symlink.
     if let Some(template_base) = template_base {
         if template_instance.is_none() {
-            if let Some(default_instance) = service.lookup(INSTALL_SECTION, "DefaultInstance") {
+            if let Some(default_instance) = service
+                .lookup(INSTALL_SECTION, "DefaultInstance")
+                // an instance name is a file name part, never a path
+                .filter(|instance| !instance.contains('/'))
+            {
                 service_name = OsString::from(format!(
                     "{template_base}@{default_instance}.{}",
                     service.unit_type()
